@@ -234,7 +234,7 @@ CLAIMED['C01'] = dict(
          'with the model parser on the text itself, over random layouts, minimal/full/redundant parentheses, keyword-like names, '
          'non-canonical numbers and token-level mutations; 0 disagreements with Lark on ~2k texts per run including the LALR-merged-lookahead '
          'corner (`xs[0]!= 3`). Also proved: keyword recognition is exact-word and boundary-sensitive (isKw_exact).'
-         ' Scanner on arbitrary text (Props/C01f, C06n, C18e): lex_spaced - a scanned text is its tokens written out in order with white space in between, flags included; lex_tokOk; scan_append (locality at white space). Exactness (Props/C01e): parse_iff_renders - parseExpressionToks ts = ok e <-> Renders 0 e ts (soundness parse_sound by induction on fuel over the 19 parser functions + completeness), parse_rejects_iff, parse_predicate_iff; the grammar states the contextual lexer: not/forall/exists are keywords only at the start of a logic operand. Layout independence at token level (Props/C01d, C18b): parse_key_invariant - every parser function returns the same result on token sequences that agree on kind, text and word adjacency, at every entry point; scanner lemmas (longest-match words, maximal-munch symbols, local number and string scanning, Props/C06d, C06g).',
+         ' Property and file level (Spec/GrammarProp, Props/C01g): parseProperty_iff - parsePropertyToks ts = ok p <-> RProperty p ts for a declarative grammar of properties (annotations, scopes, patterns, events with aliases and predicates, alternatives in source order, time amount and unit); parseFile_iff_grammar. Scanner on arbitrary text (Props/C01f, C06n, C18e): lex_spaced - a scanned text is its tokens written out in order with white space in between, flags included; lex_tokOk; scan_append (locality at white space). Exactness (Props/C01e): parse_iff_renders - parseExpressionToks ts = ok e <-> Renders 0 e ts (soundness parse_sound by induction on fuel over the 19 parser functions + completeness), parse_rejects_iff, parse_predicate_iff; the grammar states the contextual lexer: not/forall/exists are keywords only at the start of a logic operand. Layout independence at token level (Props/C01d, C18b): parse_key_invariant - every parser function returns the same result on token sequences that agree on kind, text and word adjacency, at every entry point; scanner lemmas (longest-match words, maximal-munch symbols, local number and string scanning, Props/C06d, C06g).',
     design_ref='DESIGN.md §0.1, §6 C01',
     note='PARTIAL: completeness (grammar tree => parser result) is proved at token level; soundness / unambiguity (parser result => grammar '
          'tree), the scanner and the agreement of the Lean grammar relation with the .lark file are tied by correspondence. Lark itself is '
